@@ -49,6 +49,17 @@ CHECKS = {
         "vlib/refurl.py and generator labels are the reference; urllib quirks (blank stripping) are grey",
         "DESIGN.md §2 C08",
     ),
+    "C06": (
+        "exploration",
+        "Hypothesis boundary-biased body sizes/contents/readers; byte-exact stream oracle + backend differential, "
+        "in-memory TLS and live loopback sockets",
+        "Generated bodies (0 B .. 4 MiB, dense around 2^14/2^16/socket-buffer boundaries; pattern, pseudo-random and "
+        "multi-byte text; str and bytes) are fetched through both real TLS stacks in memory (incl. a slow reader with "
+        "TCP backlog) and over live sockets; the received stream must equal header+body exactly, end cleanly, and be "
+        "identical on both backends.",
+        "OpenSSL 3.0.20 memory BIOs / loopback kernel buffers; sizes above 4 MiB only in the thorough tier",
+        "DESIGN.md §2 C06",
+    ),
 }
 
 PENDING_REASON = "check not built yet in this round (work in progress; technique applies, see DESIGN.md)"
